@@ -48,7 +48,9 @@ namespace MEDDLY {
             return false;
         }
         inline static bool stopOnEqualArgs() {
-            return true;
+            // x/x is 1 only where x is nonzero; where x is zero we must
+            // reach the terminals and report the division by zero.
+            return false;
         }
         inline static void makeEqualResult(int L, unsigned in,
                 const forest* fa, node_handle a,
@@ -68,7 +70,8 @@ namespace MEDDLY {
                 const forest* fa, node_handle &a,
                 const forest* fb, node_handle b)
         {
-            if (0 == a) return true;
+            // 0/b is 0 only where b is nonzero, so a zero numerator
+            // cannot short-circuit the check of the divisor.
             if (fb->isIdentityReduced()) return false;
             terminal one( RANGE(1) );
             return (one.getHandle() == b);
